@@ -216,7 +216,12 @@ CHECKS["C03"] = dict(
          "C03_reachable_feasible_*_from_init; lattice linear / random-monotonic, PWL uniform / equal-heights / output "
          "calibrator, missing output, categorical with its build-time projection, constant 1/n Linear, KFL), under "
          "configuration validity and output_initialization inside the bounds (D65 otherwise); fresh weights are "
-         "compared in Coq with the initializer models on every run. Open known findings D32, D57, D65.",
+         "compared in Coq with the initializer models on every run. END-TO-END theorems (C03_calibrated_lattice / _linear / "
+         "_kfl / _ensemble _end_to_end): for a model description whose validity predicate contains configuration facts "
+         "only, every state reachable by any well-shaped history yields a function that is monotone, pair-ordered and "
+         "bounded - all initial-value, calibrator and kernel facts are derived; guards D1 / D2 / D32 / D57 / D65. The "
+         "descriptions are tied to the real builders at construction and after one update (Harness/H_C03E2E.v). "
+         "Open known findings D32, D57, D65.",
     technique="Coq proof (state-machine invariant + composition of monotone maps) + in-Coq correspondence with premade models under training histories",
     design="7/C03")
 CHECKS["C07"] = dict(
@@ -305,7 +310,10 @@ CHECKS["C16"] = dict(
          "accepted configuration satisfies the validity hypotheses of the C01 / C04 / C06 / C07 theorems (bridges). "
          "Decision models (tied on every run, each conjunct with a rejection theorem) also cover RTL, CDF, the "
          "regulariser objects and premade verify_config; accepted RTL configs give the premise of the C17 structure "
-         "theorems. Open known findings D42-D51.",
+         "theorems. 'Accepted => no silent totalisation' (C16_total_*): for accepted configurations every denominator of the "
+         "projection / evaluation / initialiser models is non-zero (or behind the code's own guard) and every index "
+         "the evaluation models use is in range, with refuted witnesses where the code can raise or return NaN "
+         "(D45, D48, D60, D70, D71). Open known findings D42-D51, D59, D60, D70, D71.",
     technique="Coq proof over functions translated from source + in-Coq correspondence of accept/reject decisions",
     design="7/C16")
 
